@@ -654,7 +654,7 @@ def extra_checks(pid, tier, seed, log):
         verif = os.path.dirname(os.path.dirname(os.path.abspath(__file__)))
         harn = os.path.join(verif, "harness")
         env = dict(os.environ, GOFLAGS="-mod=mod", GOPROXY="off", GOSUMDB="off", GOTOOLCHAIN="local", CGO_ENABLED="1")
-        p = subprocess.run(["go", "build", "-race", "-tags", "verif", "-o", "bin/verifharness-race", "."], cwd=harn, env=env,
+        p = subprocess.run(["go", "build", "-race", "-tags", "verif", "-o", "bin/verifharness-race", "."], cwd=harn, env=env,  # only C16 builds this one
                            stdout=subprocess.PIPE, stderr=subprocess.STDOUT, text=True)
         log.append(("go build -race (harness)", p.returncode, p.stdout[-800:]))
         if p.returncode != 0:
